@@ -158,22 +158,22 @@ theorem rank_lt_bound (descs : List Desc) (rank : Nat → Nat) (d : Desc) (hd : 
   have := this (descs.map (fun d => rank d.ctor)) (rank d.ctor) (List.mem_map.2 ⟨d, hd, rfl⟩)
   omega
 
-theorem sinv_scopeGet (beh : Beh) (hnil : NoNilOutputs beh) (descs : List Desc) (rank : Nat → Nat) (cfg : Cfg descs rank)
+theorem sinv_scopeGet (beh : Beh) (descs : List Desc) (rank : Nat → Nat) (cfg : Cfg descs rank)
     (st : State) (inv : SInv descs st) (s ty key : Nat) (hs : s < st.nscopes) :
     SInv descs (scopeGet beh st s ty key).1 := by
   by_cases hd : (st.scope s).disposed = true
   · unfold scopeGet fuelFor resolve; simp [hd]; exact inv
   · have hd' : (st.scope s).disposed = false := by simpa using hd
-    exact ((scopedOnce beh hnil descs rank cfg _).1 st s ty key (rankBound descs rank) inv
+    exact ((scopedOnce beh descs rank cfg _).1 st s ty key (rankBound descs rank) inv
       ⟨hd', inv.openOK s hd'⟩ hs (fun t ht => rank_lt_bound descs rank t (findService_mem ht))).inv
 
-theorem sinv_scopeGetGroup (beh : Beh) (hnil : NoNilOutputs beh) (descs : List Desc) (rank : Nat → Nat) (cfg : Cfg descs rank)
+theorem sinv_scopeGetGroup (beh : Beh) (descs : List Desc) (rank : Nat → Nat) (cfg : Cfg descs rank)
     (st : State) (inv : SInv descs st) (s ty grp : Nat) (hs : s < st.nscopes) :
     SInv descs (scopeGetGroup beh st s ty grp).1 := by
   by_cases hd : (st.scope s).disposed = true
   · unfold scopeGetGroup fuelFor getGroup; simp [hd]; exact inv
   · have hd' : (st.scope s).disposed = false := by simpa using hd
-    exact ((scopedOnce beh hnil descs rank cfg _).2.2.1 st s ty grp (rankBound descs rank) inv
+    exact ((scopedOnce beh descs rank cfg _).2.2.1 st s ty grp (rankBound descs rank) inv
       ⟨hd', inv.openOK s hd'⟩ hs (fun t ht => rank_lt_bound descs rank t (groupMembers_mem ht))).inv
 
 /-- allocating a fresh scope keeps the invariant: its id was never used by an event -/
@@ -272,7 +272,7 @@ def ValidHist (beh : Beh) : State → List Op → Prop
   | _, [] => True
   | st, op :: rest => validOp st op ∧ ValidHist beh (stepOp beh st op) rest
 
-theorem sinv_stepOp (beh : Beh) (hnil : NoNilOutputs beh) (descs : List Desc) (rank : Nat → Nat) (cfg : Cfg descs rank)
+theorem sinv_stepOp (beh : Beh) (descs : List Desc) (rank : Nat → Nat) (cfg : Cfg descs rank)
     (st : State) (inv : SInv descs st) (hi : st.initializers = []) (op : Op) (hv : validOp st op) :
     SInv descs (stepOp beh st op) ∧ (stepOp beh st op).initializers = [] := by
   have hinit : ∀ st', Stable st st' → st'.initializers = [] := fun st' h => by rw [h.initializers]; exact hi
@@ -285,9 +285,9 @@ theorem sinv_stepOp (beh : Beh) (hnil : NoNilOutputs beh) (descs : List Desc) (r
       show SInv descs (providerGet beh st ty key).1
       unfold providerGet; split
       · exact inv
-      · exact sinv_scopeGet beh hnil descs rank cfg st inv rootScope ty key hv
+      · exact sinv_scopeGet beh descs rank cfg st inv rootScope ty key hv
     | some s =>
-      exact ⟨sinv_scopeGet beh hnil descs rank cfg st inv s ty key hv, hinit _ (scopeGet_stable beh st s ty key wf)⟩
+      exact ⟨sinv_scopeGet beh descs rank cfg st inv s ty key hv, hinit _ (scopeGet_stable beh st s ty key wf)⟩
   | getGroup s ty grp =>
     cases s with
     | none =>
@@ -295,9 +295,9 @@ theorem sinv_stepOp (beh : Beh) (hnil : NoNilOutputs beh) (descs : List Desc) (r
       show SInv descs (providerGetGroup beh st ty grp).1
       unfold providerGetGroup; split
       · exact inv
-      · exact sinv_scopeGetGroup beh hnil descs rank cfg st inv rootScope ty grp hv
+      · exact sinv_scopeGetGroup beh descs rank cfg st inv rootScope ty grp hv
     | some s =>
-      exact ⟨sinv_scopeGetGroup beh hnil descs rank cfg st inv s ty grp hv, hinit _ (scopeGetGroup_stable beh st s ty grp wf)⟩
+      exact ⟨sinv_scopeGetGroup beh descs rank cfg st inv s ty grp hv, hinit _ (scopeGetGroup_stable beh st s ty grp wf)⟩
   | createScope p ctx =>
     cases p with
     | none => exact sinv_providerCreateScope beh descs st inv hi ctx
@@ -305,7 +305,7 @@ theorem sinv_stepOp (beh : Beh) (hnil : NoNilOutputs beh) (descs : List Desc) (r
   | closeScope s order =>
     exact ⟨inv.close ((closeFrame_close beh order _).1 st s), hinit _ (closeScope_stable' beh order _ st s)⟩
 
-theorem sinv_run (beh : Beh) (hnil : NoNilOutputs beh) (descs : List Desc) (rank : Nat → Nat) (cfg : Cfg descs rank) :
+theorem sinv_run (beh : Beh) (descs : List Desc) (rank : Nat → Nat) (cfg : Cfg descs rank) :
     ∀ (ops : List Op) (st : State), SInv descs st → st.initializers = [] → ValidHist beh st ops →
       SInv descs (run beh st ops) := by
   intro ops
@@ -313,7 +313,7 @@ theorem sinv_run (beh : Beh) (hnil : NoNilOutputs beh) (descs : List Desc) (rank
   | nil => intro st inv _ _; exact inv
   | cons op rest ih =>
     intro st inv hi hv
-    obtain ⟨h1, h2⟩ := sinv_stepOp beh hnil descs rank cfg st inv hi op hv.1
+    obtain ⟨h1, h2⟩ := sinv_stepOp beh descs rank cfg st inv hi op hv.1
     exact ih _ h1 h2 hv.2
 
 end Godi.Container
